@@ -565,4 +565,10 @@ theorem evalArithUpdate_succ (fuel : Nat) (cfg : Cfg) (env : Env) (name : String
       (eval fuel cfg env r (withCtx none s)).bind fun x =>
         evalModify fuel cfg env l (.inr (name, x.v)) s := rfl
 
+theorem evalPaths_succ (fuel : Nat) (cfg : Cfg) (env : Env) (l : Query) (s : St) :
+    evalPaths (fuel+1) cfg env l s =
+      let r := evalCall fuel cfg env "path" [l] (withCtx none s)
+      if r.outs.any (·.pend) then ([], .unmodelled "update through paths emitted under a pending `?//` alternative")
+      else (r.outs.map fun o => match o.v with | .arr p => p | _ => [], r.stop) := rfl
+
 end Gojq.Spec
